@@ -232,6 +232,24 @@ PROPS["C18"] = {
     "assumptions": ["avoided by construction: retargeting a symbol that occurs in a sym-sym expression or under overlapping blocks (NotImplementedError / AmbiguousIRError are documented)"],
 }
 
+PROPS["C19"] = {
+    "engine": "rwsim",
+    "level": "exploration",
+    "quick_runs": 3000,
+    "thorough_runs": 60000,
+    "quick_wall": 240,
+    "thorough_wall": 2400,
+    "params": {"delsym_p": 0.9, "symtabs_p": 0.9, "fwd_p": 0.6, "cfi_p": 0.4, "insfn_p": 0.0},
+    "rule": "seeded scenarios (ELF and PE) whose symbols occur in random subsets of elfSymbolInfo, elfSymbolTabIdxInfo, "
+    "elfSymbolVersions (shared / unshared version ids and libraries, base definition), functionNames, PE import/export lists, "
+    "symbolForwarding keys and values, CFI personality/LSDA and symbolic expressions; sessions delete any number of symbols "
+    "with any force flags (also twice with different flags), alone or inside edit histories; a non-forced symbol with uses must "
+    "raise SymbolUsesRemainingError, after which the C05 failure-path validator runs; distinct = (module, sessions) digest; "
+    "non-trivial = at least one delete_symbol request",
+    "real_vs_stub": RW_REAL,
+    "assumptions": ["symbolicExpressionSizes entries of removed expressions are not judged (the property does not mention them)"],
+}
+
 # (moved below)
 # engines built separately contribute their own entries
 import importlib as _il
